@@ -45,8 +45,10 @@ use indexmap::IndexMap;
 /// let solution = auto_solver(&model).unwrap();
 /// ```
 pub fn auto_solver(lp: &LinearModel) -> Result<LpSolution<MILPValue>, SolverError> {
-    if lp.domain().is_empty() {
+    if lp.domain().is_empty() && lp.constraints().is_empty() {
         // A variable-free model still carries a constant objective (the offset).
+        // Rows without variables (such as the `0 = 1` of a contradictory model)
+        // still decide feasibility, so they are left to the solver.
         return Ok(LpSolution::new(
             vec![],
             lp.objective_offset(),
